@@ -553,6 +553,53 @@ func c11containers(c *Ctx) {
 			for i := 0; i < named.NumMethods(); i++ {
 				m := named.Method(i)
 				if m.Name() == "Execute" {
+					// R13 (round 8): what Execute leaves behind. A container field that Execute writes (a statement buffer
+					// kept between batches, a counter) outlives the batch; unless it is emptied by a deferred call — which
+					// also runs when the callback panics — the next batch starts on the leftovers of a failed one
+					if ex := c.P.SSA.FuncValue(m); ex != nil && ex.Blocks != nil && len(ex.Params) > 0 {
+						recv := ex.Params[0]
+						written := map[string]string{}
+						deferred := map[string]bool{}
+						fieldOf := func(v ssa.Value) string {
+							fa, ok := v.(*ssa.FieldAddr)
+							if !ok || fa.X != ssa.Value(recv) {
+								return ""
+							}
+							return fieldNameAt(fa.X.Type(), fa.Field)
+						}
+						for _, eb := range ex.Blocks {
+							for _, ei := range eb.Instrs {
+								switch x := ei.(type) {
+								case *ssa.Store:
+									if fn := fieldOf(x.Addr); fn != "" {
+										written[fn] = c.P.Pos(x.Pos())
+									}
+								case *ssa.Defer:
+									if len(x.Call.Args) > 0 {
+										if fn := fieldOf(x.Call.Args[0]); fn != "" {
+											deferred[fn] = true
+										}
+									}
+								case *ssa.Call:
+									if cal := x.Call.StaticCallee(); cal != nil && cal.Signature.Recv() != nil && len(x.Call.Args) > 0 {
+										if fn := fieldOf(x.Call.Args[0]); fn != "" {
+											if _, isPtr := cal.Signature.Recv().Type().(*types.Pointer); isPtr && !strings.HasPrefix(cal.Name(), "Reset") && !strings.HasPrefix(cal.Name(), "Len") && !strings.HasPrefix(cal.Name(), "String") && cal.Pkg != nil && cal.Pkg.Pkg.Path() != "sync" {
+												written[fn] = c.P.Pos(x.Pos())
+											}
+										}
+									}
+								}
+							}
+						}
+						var left []string
+						for fn, at := range written {
+							if !deferred[fn] {
+								left = append(left, fmt.Sprintf("field %s is written at %s and not emptied by a deferred call", fn, at))
+							}
+						}
+						sort.Strings(left)
+						c.R.Check(len(left) == 0, "C11.R13", strings.TrimPrefix(pk.PkgPath, mod)+"."+name+".Execute#carry-over", "Execute leaves nothing of one batch in the container for the next: a container field it writes is emptied by a deferred call (which also runs when the callback panics)", c.P.Pos(ex.Pos()), strings.Join(left, "; "), left, len(written)+1)
+					}
 					// R9 (round 5): "a panicking callback loses only its own batch" — whatever the container holds while the
 					// callback runs is released when the callback panics
 					if ex := c.P.SSA.FuncValue(m); ex != nil && ex.Blocks != nil {
